@@ -1,3 +1,4 @@
 -- Root of the `Aiorpcx` library: imports every property's theorem file.
 import Aiorpcx.C06.Props
 import Aiorpcx.C04.Props
+import Aiorpcx.C05.Props
